@@ -1038,6 +1038,8 @@ INIT_SECS = [
          [("freq", "Int"), ("dtstart", "DT"), ("bymonth", "OptIntList"), ("bymonthday", "OptIntList"), ("byyearday", "OptIntList"),
           ("byeaster", "OptIntList"), ("byweekno", "OptIntList"), ("byweekday", "OptPairList")],
          [("bymonth", "OptIntList"), ("bymonthday", "OptIntList"), ("byweekday", "OptPairList")]),
+    RSec("rrule.__init__[byweekday]", "init_byweekday", "_byweekday", [("freq", "Int"), ("byweekday", "OptPairList")],
+         [("self__byweekday", "OptIntList"), ("self__bynweekday", "OptPairList")]),
     RSec("rrule.__init__[timeset]", "init_timeset", "_timeset",
          [("self__freq", "Int"), ("self__byhour", "OptIntList"), ("self__byminute", "OptIntList"), ("self__bysecond", "OptIntList")],
          [("self__timeset", "OptTimeList")]),
